@@ -59,6 +59,9 @@ def mps_sum(ctx, idx, rng):
     d = int(rng.choice([1, 2, 3]))
     layout = str(rng.choice(['zero', 'unsorted', 'sorted', 'pairs', 'huge']))
     qd, a, b, lab = _pair_mps(rng, L, d, layout)
+    if idx % 6 == 5:
+        b = a                      # the SAME object on both sides (psi - psi, psi + psi, add_mps(psi, psi, alpha))
+        lab = lab[:1] + ('same-object',) + lab[2:]
     va, vb = refs.dense_state(a.A), refs.dense_state(b.A)
     sub = bool(idx % 2)
     ctx.case(('mps-sum', f'L{min(L, 3)}', f'd{d}', layout, 'sub' if sub else 'add') + lab, sample={'qd': qd, 'qDa': a.qD, 'qDb': b.qD})
@@ -107,6 +110,11 @@ def mpo_arith(ctx, idx, rng):
     B = gen.rand_mpo(rng, qd, L, Dmax=3, kind=k1, boundary=(int(A.qD[0][0]), int(A.qD[-1][0])))
     # B's trailing charge must be reachable: re-mask (rand_mpo masks with its own qD, so B is consistent by construction)
     C = gen.rand_mpo(rng, qd, L, Dmax=2, kind='complex')
+    same = idx % 7 == 6
+    if same:
+        B = A                      # the SAME object on both sides (A - A, A + A, A @ A)
+        C = A
+        k1 = 'same-object'
     mA, mB, mC = refs.dense_operator(A.A), refs.dense_operator(B.A), refs.dense_operator(C.A)
     op = ('add', 'sub', 'matmul', 'chain')[idx % 4]
     ctx.case(('mpo', op, f'L{L}', f'd{d}', layout, k0, k1), sample={'qd': qd, 'qDA': A.qD, 'qDB': B.qD, 'op': op})
